@@ -748,6 +748,10 @@ func buildCorrSuite(ctx *Ctx, r *Rng, n int) {
 	for i := 0; i < n/4; i++ {
 		docs = append(docs, collisionDoc(r), hostileDoc(r), bodylessDoc(r), similarRootDoc(r), twoRequestsDoc(r))
 	}
+	// copies of one macro method with its own Path under consecutive URLs (F44: the Path stage goes by identity)
+	for _, d := range urlMacroDocs() {
+		docs = append(docs, []byte(d.M), []byte(d.I))
+	}
 	var fixtures [][]byte
 	for _, f := range fixtureFiles() {
 		if strings.Contains(f, "include") {
